@@ -72,8 +72,9 @@ class Recorder:
     # ---- leaves
     def _hmac_new(self, key, msg=None, digestmod=''):
         h = self._orig_hmac_new(key, msg, digestmod)
-        if msg is not None and isinstance(digestmod, str):
-            self.tables[("hmac:" + digestmod.lower(), bytes(key), bytes(msg))] = h.digest()
+        if msg is not None:
+            name = h.name[5:] if h.name.startswith("hmac-") else h.name      # "hmac-sha1" -> "sha1"
+            self.tables[("hmac:" + name.lower(), bytes(key), bytes(msg))] = h.digest()
             self.calls["hmac"] += 1
         return h
 
